@@ -534,6 +534,7 @@ func runCase(c map[string]any) (steps []map[string]any) {
 		}
 	}
 	fin["leaks"] = leaks
+	fin["ngoroutines"] = runtime.NumGoroutine()
 	/* The JSON log: one object per line. */
 	jok, jn := true, 0
 	for _, l := range strings.Split(strings.TrimSuffix(jbuf.String(), "\n"), "\n") {
